@@ -9,18 +9,19 @@
 (***************************************************************************)
 EXTENDS Naturals, Integers, Sequences, FiniteSets, TLC, Json
 CONSTANTS Paths, Strats, HdrModes, NSet, MSet, BoolSet, PlaceSet, FootSet, HFSet, PaperSet, NrowSet, ShapeSet, SizeSet, KindSet, ContigSet,
+          PriorSet,                \* "none" | "narrow": the body object (one-value width shorthand) served a narrower table before
           KeyTypeSet, SeqSet,      \* type of the grouping-column values (str/int/date/null) and spelling of page_by etc. (list/tuple/str)
           HeaderOffOk, HalfPointOk
 VARIABLES cfg, d, phase, skel, outcome
 vars == <<cfg, d, phase, skel, outcome>>
 Cfg0 == [path |-> "single", strat |-> "plain", hdr |-> "default", n |-> 1, m |-> 1, title |-> FALSE, subline |-> FALSE, foot |-> "none",
          src |-> "none", pghdr |-> FALSE, pgftr |-> FALSE, ptitle |-> "all", pfoot |-> "last", psrc |-> "last", paper |-> "letter",
-         nrow |-> 40, shape |-> "scalar", size |-> "int", kind |-> "str", contig |-> TRUE, colour |-> FALSE, nsec |-> 1, keytype |-> "str", seq |-> "list"]
+         nrow |-> 40, shape |-> "scalar", size |-> "int", kind |-> "str", contig |-> TRUE, colour |-> FALSE, nsec |-> 1, keytype |-> "str", seq |-> "list", prior |-> "none"]
 Dims == << <<"path", Paths>>, <<"strat", Strats>>, <<"hdr", HdrModes>>, <<"n", NSet>>, <<"m", MSet>>, <<"title", BoolSet>>,
            <<"subline", BoolSet>>, <<"foot", FootSet>>, <<"src", FootSet>>, <<"pghdr", HFSet>>,
            <<"pgftr", HFSet>>, <<"ptitle", PlaceSet>>, <<"pfoot", PlaceSet>>, <<"psrc", PlaceSet>>, <<"paper", PaperSet>>, <<"nrow", NrowSet>>,
            <<"shape", ShapeSet>>, <<"size", SizeSet>>, <<"kind", KindSet>>, <<"contig", ContigSet>>, <<"colour", BoolSet>>, <<"nsec", {2, 3}>>,
-           <<"keytype", KeyTypeSet>>, <<"seq", SeqSet>> >>
+           <<"keytype", KeyTypeSet>>, <<"seq", SeqSet>>, <<"prior", PriorSet>> >>
 \* dependent restrictions (configurations the constructors accept)
 Dom(k, c) == LET f == Dims[k][1]  S == Dims[k][2] IN
   CASE f = "strat" -> IF c.path = "figure" THEN {"plain"} ELSE S
@@ -31,6 +32,7 @@ Dom(k, c) == LET f == Dims[k][1]  S == Dims[k][2] IN
     [] f = "nsec" -> IF c.path = "multi" THEN S ELSE {1}
     [] f = "keytype" -> IF c.strat = "plain" \/ c.path = "figure" THEN {"str"} ELSE S
     [] f = "seq" -> IF c.strat = "plain" \/ c.path = "figure" THEN {"list"} ELSE S
+    [] f = "prior" -> IF c.path = "single" /\ c.strat = "plain" /\ c.shape = "scalar" /\ c.m >= 2 THEN S ELSE {"none"}
     [] OTHER -> S
 Init == cfg = Cfg0 /\ d = 1 /\ phase = "pick" /\ skel = <<>> /\ outcome = "none"
 Pick == /\ phase = "pick" /\ d <= Len(Dims)
@@ -38,7 +40,7 @@ Pick == /\ phase = "pick" /\ d <= Len(Dims)
         /\ d' = d + 1 /\ UNCHANGED <<phase, skel, outcome>>
 Refuses(c) == c.strat = "groupby" /\ ~c.contig
 Crashes(c) == \/ (~HeaderOffOk /\ c.hdr = "off" /\ c.path = "single")
-              \/ (~HalfPointOk /\ c.size = "half" /\ c.path # "figure" /\ (c.n > 0 \/ c.hdr \in {"explicit", "multi"}))
+              \/ (~HalfPointOk /\ c.size = "half" /\ c.path # "figure" /\ (c.n > 0 \/ c.hdr \in {"explicit", "multi", "multi2"}))
 Start == /\ phase = "pick" /\ d > Len(Dims)
          /\ IF Refuses(cfg) THEN outcome' = "ValueError" /\ phase' = "done" /\ skel' = skel
             ELSE IF Crashes(cfg) THEN outcome' = "crash" /\ phase' = "done" /\ skel' = skel
